@@ -109,7 +109,10 @@ JThree(r) ==
 JCircleFit(r) ==
     LET o == r.out n == Len(r.gs)
         exact == ExactArc(r.pts, r.ctr, r.R)
-        near == {j \in 1..n : exact /\ Len(r.gs[j]) = 3 /\ GuessNear(r.gs[j], r.ctr, r.R)} IN
+        \* a guess with a fourth component takes the mean distance of the points from the guessed centre as its radius
+        \* (the usual centroid + mean distance start): within R/3 of R whenever the centre is within R/3
+        near == {j \in 1..n : exact /\ ((Len(r.gs[j]) = 3 /\ GuessNear(r.gs[j], r.ctr, r.R))
+                                      \/ (Len(r.gs[j]) = 4 /\ GuessNear(<<r.gs[j][1], r.gs[j][2], r.R>>, r.ctr, r.R)))} IN
     /\ Clause(i, "C09.cfit.shape", Len(o.res) = n /\ \A j \in 1..n : Len(o.res[j].g) = 3)
     /\ (Len(o.res) = n /\ \A j \in 1..n : Len(o.res[j].g) = 3) =>
        /\ ClauseAll(i, "C09.cfit.finite", 1..n, LAMBDA j : o.res[j].finite)
